@@ -272,7 +272,7 @@ def may_sets(node):
         for pos, arg in enumerate(call.arguments):
             it = intents[pos] if intents is not None else None
             if isinstance(arg, N.Reference):
-                if it in ("in",) or (it is None and pure_fn) or (it is None and intents is not None and pure_fn):
+                if it == "in" or (it is None and pure_fn):
                     reads_of(arg)
                 elif it == "out":
                     wr.add(_base_var(arg))
